@@ -501,3 +501,26 @@ shallow_instances! {
     c09_k2_failed_reload_nf => failed_reload_keeps_deps(1);
     c09_k2_failed_reload_bad => failed_reload_keeps_deps(3);
 }
+
+/// C06.K4 — the reload id grows "never otherwise": no operation other than a successful rewrite touches it
+fn only_write_touches_counter() {
+    let c = gc_with_reloader(Mem::new(O::Good, O::Good, nd(), nd()));
+    let h = match c._load::<A>("a") { Ok(h) => h, Err(e) => { std::mem::forget(e); panic!("load failed") } };
+    let mut w = h.reload_watcher();
+    let _ = c._load::<A>("a");
+    let _ = c._get_cached::<A>("a");
+    let _ = c._get_or_insert::<A>("a", A(9));
+    let _ = c._contains::<A>("a");
+    let _ = c._load_owned::<A>("a");
+    let _ = c._load::<A>("b");
+    {
+        let g = h.read();
+        let _ = g.0;
+    }
+    assert!(h.last_reload_id() == crate::ReloadId::NEVER, "C06 the reload id never grows without a rewrite (loads, look-ups, reads, other assets)");
+    assert!(!w.reloaded() && !h.reloaded_global(), "C06 nothing is reported when nothing was rewritten");
+    std::mem::forget(c);
+}
+instances! {
+    c06_k4_only_write_touches_counter => only_write_touches_counter();
+}
